@@ -67,6 +67,27 @@ func runC14(c *Ctx) {
 		}
 		c.Guarded(load, "use of the block meta", StoreTo(`\.LastBlock(Height|ID|Time)$`), G("block meta exists", NotNil(`^`+meta+`$`)), G("state record exists", NotNil(`^call:kai/rawdb\.ReadConsensusStateHeight\(db, height\)$`)))
 	}
+	// ---- the loader skips the last validators exactly at the genesis record -------------------------------------
+	if load != nil {
+		st := findInstrs(load, StoreTo(`#0\.LastValidators$`))
+		c.Check("F", fnName(load)+"/one assignment of LastValidators", len(st) == 1, load.Pos(), len(st), "")
+		for _, in := range st {
+			var other []string
+			n := 0
+			for _, dc := range domConds(in) {
+				switch {
+				case re(`#0\.LastBlockHeight (> const:0|!= const:0|>= const:1)\)=T$`).MatchString(dc):
+					n++
+				case re(`(== nil\)=F|!= nil\)=F|!= nil\)=T|== nil\)=T)$`).MatchString(dc): // record-missing / decode-error exits
+				case re(`\.InitialHeight == const:0\)=`).MatchString(dc):
+				default:
+					other = append(other, dc)
+				}
+			}
+			c.Check("G", fnName(load)+"/LastValidators is restored for every height above genesis (skipped only when LastBlockHeight == 0)", n == 1 && len(other) == 0, instrPos(in), 1,
+				"conditions on the assignment: "+clip(strings.Join(domConds(in), " ; "), 400)+" — the saver records LastValidatorsInfoHash for every height, and the state at every height > 0 has a last validator set; any other skip condition loses it on reload")
+		}
+	}
 	// ---- ToProto: like-named hashes ---------------------------------------------------------------------
 	if fn := c.Fn("kai/state/cstate", "LatestBlockState", "ToProto"); fn != nil {
 		got := map[string][]string{}
@@ -106,6 +127,37 @@ func runC14(c *Ctx) {
 			c.Check("F", fnName(fn)+"/state record is keyed by LastBlockHeight", len(a) == 3 && a[1] == "state.LastBlockHeight", instrPos(in), 1, describeInstr(in))
 		}
 		c.Guarded(fn, "save last/current sets", CallTo(`^kai/state/cstate\.saveValidatorsInfo$`, `state\.(LastValidators|Validators)\)$`), G("genesis state (LastBlockHeight == 0)", Cmp(`^state\.LastBlockHeight$`, "==", `^const:0$`)))
+	}
+	// ---- saveState is one atomic batch --------------------------------------------------------------------------
+	c.atomicBatch([]batchFn{{"kai/state/cstate", "", "saveState"}})
+	// ---- pruning keeps every record the surviving states name ---------------------------------------------------
+	if fn := c.Fn("kai/state/cstate", "dbStore", "PruneState"); fn != nil {
+		delInfo := CallTo(`^kai/rawdb\.DeleteConsensusValidatorsInfo$`, "")
+		for _, in := range findInstrs(fn, delInfo) {
+			a := argPaths(callCommon(in))
+			c.Check("F", fnName(fn)+"/only records collected in the prune set are deleted", len(a) == 2 && re(`^next\(range\(make:map\[lib/common\.Hash\]struct\{\}\)\)#1$`).MatchString(a[1]), instrPos(in), 1, describeInstr(in))
+		}
+		for _, keep := range []struct{ name, h string }{{"the first kept state (height `to`)", "to"}, {"the genesis state", "const:0"}} {
+			rec := `call:kai/rawdb.ReadConsensusStateHeight(s.db, ` + keep.h + `)`
+			for _, f := range []string{"LastValidatorsInfoHash", "ValidatorsInfoHash", "NextValidatorsInfoHash"} {
+				want := "call:lib/common.BytesToHash(" + rec + "." + f + ")"
+				must := func(in ssa.Instruction) bool {
+					cc := callCommon(in)
+					if cc == nil || calleeNameNoPath(cc) != "delete" {
+						return false
+					}
+					a := argPaths(cc)
+					return len(a) == 2 && strings.HasPrefix(a[0], "make:map[lib/common.Hash]") && a[1] == want
+				}
+				c.AfterGuard(fn, G(keep.name+" exists", NotNil("^"+regexpQuote(rec)+"$")), "take "+f+" of "+keep.name+" out of the prune set", must, "deleting validators-info records", delInfo)
+			}
+		}
+		delState := CallTo(`^kai/rawdb\.DeleteConsensusStateHeight$`, "")
+		c.Guarded(fn, "delete a state record", delState, G("height below `to` (the first kept state)", Cmp(`^phi\(`, "<", `^to$`)))
+		for _, in := range findInstrs(fn, delState) {
+			a := argPaths(callCommon(in))
+			c.Check("F", fnName(fn)+"/the genesis state record is never pruned (from is raised to 1)", len(a) == 2 && strings.Contains(a[1], "phi(const:1|from)"), instrPos(in), 1, describeInstr(in))
+		}
 	}
 	// ---- content-address key coverage ---------------------------------------------------------------------
 	if fn := c.Fn("kai/state/cstate", "", "saveValidatorsInfo"); fn != nil {
